@@ -20,7 +20,7 @@ MAX_DEPTH = 4
 CLOSURE_CALLS = ("std::ops::Fn::call", "std::ops::FnMut::call_mut", "std::ops::FnOnce::call_once")
 
 
-def inlinable(facts, k, opaque):
+def inlinable(facts, k, opaque, caller=None):
     if k in opaque or k not in facts.j["bodies"]:
         return False
     b = facts.j["bodies"][k]
@@ -30,12 +30,49 @@ def inlinable(facts, k, opaque):
     if not f:
         return False
     if f.get("reachable") or f.get("exported") or f.get("vis") == "public":
-        return False
+        # a public method is inlined only into a sibling method of the same impl type that merely delegates to it
+        # (`without_x(self)` = `self.with_x("")`): small, loop-free callee
+        cf = facts.fns.get(caller) if caller else None
+        if not (cf and f.get("impl_self") and f.get("impl_self") == cf.get("impl_self") and "impl_trait" not in f and "impl_trait" not in cf and len(b["blocks"]) <= 12 and not _has_loop(b)):
+            return False
     if "impl_trait" in f or f.get("impl_trait_def"):
         return False
     if f.get("output") == "bool":
         return False
     return True
+
+
+def _has_loop(j):
+    """any back edge in the raw body (DFS)?"""
+    color = {}
+
+    def succ(b):
+        t = j["blocks"][b]["term"]
+        k = t["t"]
+        if k == "goto":
+            return [t["target"]]
+        if k == "switch":
+            return [tg for (_, tg) in t["arms"]] + [t["otherwise"]]
+        if k in ("call", "drop", "assert"):
+            return [t["target"]] if t.get("target") is not None else []
+        return []
+    stack = [(0, iter(succ(0)))]
+    color[0] = 1
+    while stack:
+        n, it = stack[-1]
+        adv = False
+        for s_ in it:
+            if color.get(s_) == 1:
+                return True
+            if s_ not in color:
+                color[s_] = 1
+                stack.append((s_, iter(succ(s_))))
+                adv = True
+                break
+        if not adv:
+            color[n] = 2
+            stack.pop()
+    return False
 
 
 def _shift(node, lo, bo):
@@ -128,7 +165,7 @@ def inline_body(facts, key, opaque):
                 continue
             r = ce.get("resolved")
             target = r["path"] if r and r.get("local") and r["path"] in facts.j["bodies"] else (path if path in facts.j["bodies"] else None)
-            if target and target != key and target not in istack and inlinable(facts, target, opaque):
+            if target and target != key and target not in istack and inlinable(facts, target, opaque, key):
                 cj = facts.j["bodies"][target]
                 if cj["arg_count"] == len(t["args"]):
                     _splice(blocks, locals_, b, cj, t["args"], istack, target)
